@@ -382,7 +382,11 @@ func (e *Env) CheckTx(bz []byte, label string, spec *TxSpec) *Call {
 	c := &Call{Entry: le, Kind: "check", H: e.H, Time: e.CurTime, Tx: bz}
 	c.Meta = e.DecodeMeta(bz, label, spec)
 	c.Pre = e.Last()
-	c.Panic, c.Stack = guarded(func() { c.ResCheck = e.A.CheckTx(abci.RequestCheckTx{Tx: bz}) })
+	req := abci.RequestCheckTx{Tx: bz}
+	if strings.HasPrefix(label, "recheck") {
+		req.Type = abci.CheckTxType_Recheck // the mempool re-checking after a block; the label carries it through replays
+	}
+	c.Panic, c.Stack = guarded(func() { c.ResCheck = e.A.CheckTx(req) })
 	e.finish(c)
 	return c
 }
